@@ -61,7 +61,7 @@ impl TryFrom<&str> for TopicName {
         }
 
         #[cfg(not(feature = "__notopiccheck"))]
-        if value[1..].starts_with(RESERVED_NAMESPACE) {
+        if value.is_char_boundary(1) && value[1..].starts_with(RESERVED_NAMESPACE) {
             return Err(SeliumError::ReservedNamespaceError);
         }
 
